@@ -175,7 +175,7 @@ void harness(void)
 #else
 	{
 		char exp[OUTSZ];
-		int sub = symx_conc(symx_u8("sub") % 4), n;
+		int sub = symx_conc(symx_u8("sub") % 5), n;
 		char *l1 = file0, *l2 = strchr(l1, '\n') + 1, *l3 = strchr(l2, '\n') + 1, *l4 = strchr(l3, '\n') + 1;
 		n = 0;
 		if (sub == 0) {		/* numbered registers: lines 1..3 deleted; the remaining line, then line 3, line 2, line 1 */
@@ -196,6 +196,9 @@ void harness(void)
 			n = add(exp, n, "\t");
 			n = add(exp, n, txt);
 			n = add(exp, n, "\n");
+		} else if (sub == 4) {	/* a character-wise delete across a line end, then a line delete: "2 keeps its character-wise nature */
+			nk[0] = add(keys[0], 0, "1G3|d/x\ndd\"2p:w\n:q\n");
+			n = add(exp, n, " cd\na\xc3\xa9 \n\tend x\n");
 		} else {		/* O above an indented line */
 			nk[0] = add(keys[0], 0, "4GO");
 			nk[0] = add(keys[0], nk[0], txt);
@@ -210,7 +213,8 @@ void harness(void)
 		symx_isolated(run0, &r0, sizeof(r0));
 		symx_observe_mem("file", r0.data, r0.len);
 		symx_assert(r0.len == n && !memcmp(r0.data, exp, n), sub == 0 ? "line deletions shift the numbered registers" :
-			sub == 1 ? "an upper-case register name appends" : "o / O copy the indentation of the line");
+			sub == 1 ? "an upper-case register name appends" : sub == 4 ? "a shifted numbered register is put the way it was deleted (character-wise)" :
+			"o / O copy the indentation of the line");
 	}
 #endif
 	symx_reach("end");
